@@ -179,8 +179,10 @@ def gen_history(rng, prof, probes):
             offs, cls = draw_offsets(rng, sh, prof.get('delete_class'))
             if rng.random() < 0.05:
                 offs = []
-            if rng.random() < 0.03:
-                offs = [-1] + offs
+            if rng.random() < 0.04:
+                # a relative offset in the set (OffsetNewest -1, OffsetOldest -2, OffsetInvalid -3 - the value failed
+                # lookups return): the whole call must be rejected
+                offs = [rng.choice([-1, -2, -3, -3])] + offs
             ops.append('%s %s' % (kind, offs_tok(offs)))
             if all(o >= 0 for o in offs):
                 apply_delete(sh, offs)
